@@ -18,7 +18,7 @@ BUILD = os.path.join(VERIF, "build")
 GOENV = dict(GOFLAGS="-mod=mod", GOPROXY="off", GOSUMDB="off", GOTOOLCHAIN="local",
              CGO_ENABLED="0")
 
-FORBIDDEN = re.compile(r"\b(Admitted|admit|Axiom|Parameter|Conjecture|Abort All)\b|Unset Guard|bypass_check|Admit Obligations|-type-in-type|-impredicative-set|native_compute")
+FORBIDDEN = re.compile(r"\b(Admitted|admit|Axiom|Parameter|Conjecture|Abort All)\b|Unset Guard|Unset Positivity|Unset Universe|Universe Checking|Positivity Checking|Guard Checking|bypass_check|Admit Obligations|-type-in-type|-impredicative-set|native_compute")
 
 
 def sh(cmd, cwd=None, timeout=None, env=None, check=False, inp=None):
